@@ -42,6 +42,12 @@ TV_HEADER = ('From Coq Require Import Reals List ZArith QArith Qreals Bool Lra.\
              'From Interval Require Import Tactic.\n'
              'From PA Require Import base.QClose model.Poly model.AbelPoly model.Pairs proofs.PolyEvalTac gen.FormulasPairs.\n'
              'Import ListNotations.\nOpen Scope R_scope.\n'
+             '(* exact decision of comparisons with |.| (samples exactly on a bound: Interval cannot decide equality) *)\n'
+             'Ltac rabs_lra := unfold Rabs in *;\n'
+             '  repeat match goal with\n'
+             '  | H : context [Rcase_abs ?x] |- _ => destruct (Rcase_abs x)\n'
+             '  | |- context [Rcase_abs ?x] => destruct (Rcase_abs x)\n'
+             '  end; lra.\n'
              'Ltac tv := unfold prof1_source, prof1_proj, prof3_source, prof3_proj, prof4_source, prof4_proj,\n'
              '  prof1_brk, prof3_brk, prof4_brk, prof1_source_l, prof1_source_r, prof1_proj_l, prof1_proj_r,\n'
              '  prof3_source_l, prof3_source_r, prof3_proj_l, prof3_proj_r, prof4_source_l, prof4_source_r,\n'
@@ -49,9 +55,9 @@ TV_HEADER = ('From Coq Require Import Reals List ZArith QArith Qreals Bool Lra.\
              '  prof6_proj, prof7_source, prof7_proj, gauss_func, gauss_abel, step_func, step_abel, step_mask_valid;\n'
              '  repeat match goal with\n'
              '  | |- context [Rle_dec ?a ?b] => let H := fresh in destruct (Rle_dec a b) as [H|H];\n'
-             '      try (exfalso; first [ lra | apply (Rle_not_lt b a H); interval | apply H; interval ])\n'
+             '      try (exfalso; first [ lra | rabs_lra | apply (Rle_not_lt b a H); interval | apply H; interval ])\n'
              '  | |- context [Rlt_dec ?a ?b] => let H := fresh in destruct (Rlt_dec a b) as [H|H];\n'
-             '      try (exfalso; first [ lra | apply (Rlt_not_le b a H); interval | apply H; interval ])\n'
+             '      try (exfalso; first [ lra | rabs_lra | apply (Rlt_not_le b a H); interval | apply H; interval ])\n'
              '  end; interval with (i_prec 80).\n')
 
 
@@ -185,6 +191,26 @@ def correspondence_objects(ctx, rng, ns, n_idx):
                 x = abs(float(S.r[i])); gi += 1
                 goals.append((tag + ('func', i), tv_goal('g%d' % gi, 'step_func %s %s %s %s' % (rlit(A0), rlit(r1), rlit(r2), rlit(x)), S.func[i], tol_of(S.func[i])))); gi += 1
                 goals.append((tag + ('abel', i), tv_goal('g%d' % gi, 'step_abel %s %s %s %s' % (rlit(A0), rlit(r1), rlit(r2), rlit(x)), S.abel[i], tol_of(S.abel[i]))))
+        # ---- StepAnalytical with samples exactly on the inner / outer bound and on the mask bounds (exact dyadic grids)
+        for sym in ([True, False] if n % 2 else [False]):
+            h = float(rng.choice([0.25, 0.5, 1.0]))
+            k = (n - 1) // 2 if sym else n - 1
+            rmax = k * h
+            i = int(rng.integers(0, k)); j = int(rng.integers(i + 1, k + 1))
+            r1, r2 = i * h, j * h
+            ratio = float(rng.choice([1.0, 0.5])); A0 = float(rng.choice([1.0, -1.5, 2.25]))
+            S = an.StepAnalytical(n, rmax, r1, r2, A0, ratio, sym)
+            tag = ('StepAnalytical exact landing', n, rmax, r1, r2, A0, ratio, sym)
+            qitems.append((tag + ('mask_valid',), 'bools_eq (map (step_maskQ %s%%Q %s%%Q %s%%Q (1#2)%%Q) %s) %s'
+                           % (Q(ratio), Q(r1), Q(r2), qlist(S.r), blist(S.mask_valid))))
+            qitems.append((tag + ('func mask',), 'bools_eq (map (step_maskQ 1%%Q %s%%Q %s%%Q (1#2)%%Q) %s) %s'
+                           % (Q(r1), Q(r2), qlist(S.r), blist(S.func != 0))))
+            ar = np.abs(S.r)
+            on = [int(np.argmin(np.abs(ar - r1))), int(np.argmin(np.abs(ar - r2))), int(np.argmin(ar))]
+            for ii in sorted(set(on + [int(v) for v in rng.choice(n, size=min(n, 2), replace=False)])):
+                x = abs(float(S.r[ii])); gi += 1
+                goals.append((tag + ('func', ii), tv_goal('g%d' % gi, 'step_func %s %s %s %s' % (rlit(A0), rlit(r1), rlit(r2), rlit(x)), S.func[ii], tol_of(S.func[ii])))); gi += 1
+                goals.append((tag + ('abel', ii), tv_goal('g%d' % gi, 'step_abel %s %s %s %s' % (rlit(A0), rlit(r1), rlit(r2), rlit(x)), S.abel[ii], tol_of(S.abel[ii]))))
         # ---- GaussianAnalytical
         for sym in [True, False]:
             for _ in range(20):
@@ -311,6 +337,55 @@ def p4_key(name, args, detail):
     return 'C11:%s:%s:%s' % (name, k, re.sub(r'\[.*?\]|\(.*?\)', '', detail.split('=')[0])[:30].strip())
 
 
+def exact_grid(rng, symmetric):
+    """(n, r_max, h) with every grid value an exact multiple of the dyadic step h (so that parameters can be put exactly on
+    grid points): symmetric -> n = 2k+1 (odd) or 2k (even, half-step layout), else any n"""
+    h = float(rng.choice([0.25, 0.5, 1.0, 2.0]))
+    if symmetric:
+        k = int(rng.integers(3, 40))
+        return 2 * k + 1, k * h, h
+    n = int(rng.integers(5, 60))
+    return n, (n - 1) * h, h
+
+
+def exact_landing_sweep(rng, run, gen_key, p4_key):
+    """Parameters chosen so that samples land EXACTLY on every breakpoint of the closed forms: inner and outer bound of the
+    step (also r1 = 0: the disk, and r2 = r_max), r = 0, the mask bounds, the branch points of the piecewise profiles;
+    symmetric on/off, odd/even n; next to each an off-grid variant."""
+    fixed = [(21, 10.0, 3.0, 6.0, True), (129, 8.0, 3.0, 5.0, True), (141, 7.0, 3.0, 5.0, True), (11, 10.0, 0.0, 4.0, False),
+             (21, 10.0, 0.0, 5.0, True), (11, 10.0, 2.0, 10.0, False), (10, 9.0, 2.0, 5.0, False), (8, 7.0, 0.0, 7.0, False)]
+    cases = list(fixed)
+    for _ in range(6):
+        sym = bool(rng.random() < 0.5)
+        n, rmax, h = exact_grid(rng, sym)
+        k = int(round(rmax / h))
+        i = int(rng.integers(0, k)); j = int(rng.integers(i + 1, k + 1))
+        cases.append((n, rmax, i * h, j * h, sym))
+        cases.append((n, rmax, i * h + 0.3 * h, j * h, sym))           # inner bound off the grid, outer on it
+        cases.append((n, rmax, i * h, j * h - 0.3 * h, sym))           # inner on, outer off
+    for (n, rmax, r1, r2, sym) in cases:
+        if r2 <= r1:
+            continue
+        A0 = float(rng.choice([1.0, -2.5, float(rng.uniform(0.2, 3))]))
+        ratio = float(rng.choice([1.0, 0.5, 0.75]))
+        run('step', (n, rmax, r1, r2, A0, ratio, sym), gen_key, ('step-exact', n % 2, sym, r1 == 0, r2 == rmax))
+    # Gaussian: r = 0 on the grid, |r| exactly ratio * sigma
+    for _ in range(4):
+        sym = bool(rng.random() < 0.5)
+        n, rmax, h = exact_grid(rng, sym)
+        ratio = float(rng.choice([2.0, 1.0, 4.0]))
+        j = int(rng.integers(1, max(2, int(round(rmax / h)))))
+        run('gaussian', (n, rmax, j * h / ratio, float(rng.uniform(-2, 3)), ratio, sym), gen_key, ('gauss-exact', n % 2, sym))
+    # profiles: samples exactly on the branch points 0.25, 0.5, 0.7 (and just next to them), TransformPair sizes whose grid
+    # contains them
+    for k, b in ((1, 0.25), (3, 0.5), (4, 0.7)):
+        xs = sorted([b, float(np.nextafter(b, 0)), float(np.nextafter(b, 1)), b / 2, (1 + b) / 2])   # a grid: ascending
+        run('profile', (k, xs), p4_key, ('profile-branch', k))
+    for n in (5, 9, 11, 21, 41, 101):
+        for k in (1, 3, 4, int(rng.integers(1, 8))):
+            run('transform_pair', (n, k), p4_key, ('tp-branch', n, k))
+
+
 def search(ctx, rng, budget):
     hits = []
     n_eval = 0
@@ -326,6 +401,7 @@ def search(ctx, rng, budget):
     def gen_key(name, args, d):
         return 'C11:%s:%s' % (name, d.split('[')[0].split('=')[0][:40])
     names = ['Dribinski', 'Gaussian', 'Gerber', 'O2', 'Ominus']
+    exact_landing_sweep(rng, run, gen_key, p4_key)
     for it in range(budget):
         n = int(rng.choice([5, 6, 7, 8, 9, 10, 11, 12, 25, 40, 101]))
         sym = bool(n % 2 and rng.random() < 0.6)
